@@ -120,7 +120,7 @@ MUTANTS = [
     return v.read()
   return v''', '''  return v''', ['malt.operators.variables.ld']),
     ('c01-ret-keeps-undefined-return', 'malt/operators/function_wrappers.py', '''    if isinstance(value, variables.UndefinedReturnValue):
-      return None''', '''    if did_return and isinstance(value, variables.UndefinedReturnValue):
+      return None''', '''    if isinstance(value, variables.Undefined):
       return None''', ['malt.operators.function_wrappers.FunctionScope.ret']),
     ('c01-ldu-swallows-everything', 'malt/operators/variables.py', 'except (KeyError, AttributeError, NameError):',
      'except Exception:', ['malt.operators.variables.ldu']),
